@@ -177,6 +177,11 @@ def jobs_for(ctx, props, n_generated, shipped_events, slow_events, gen_events, f
             jobs.append({"spec": {"kind": "shipped", "name": name, "end": 1e6, "repeat_trash_tags": True}, "props": list(props),
                          "seed": ctx.seed * 1000 + 960 + k, "max_events": max(200, shipped_events // 2),
                          "label": name + "(repeated trash tag)"})
+        # a deactivate list on the end-of-chain tagger class (no shipped file has one)
+        for k, name in enumerate(["coulomb_atoms/power_bounded", "dipoles/dipole_factors_inside_first"]):
+            jobs.append({"spec": {"kind": "shipped", "name": name, "end": 1e6, "eoc_deactivates_warmup_sampling": True},
+                         "props": list(props), "seed": ctx.seed * 1000 + 980 + k, "max_events": max(200, shipped_events // 4),
+                         "label": name + "(end of chain deactivates a tagger)"})
         # shipped configurations under the multi-process mediator
         for k, (name, cores) in enumerate([("dipoles/dipole_motion", 4), ("coulomb_atoms/cell_bounded", 3),
                                            ("water/coulomb_power_bounded_lj_inverted", 8)]):
